@@ -373,7 +373,7 @@ func (l pyList) Operator(operator Operator, operand pyObject) pyObject {
 		return l[pyIndex(l, operand, false)]
 	case LessThan:
 		// Needed for sorting.
-		l2, ok := operand.(pyList)
+		l2, ok := asList(operand)
 		if !ok {
 			panic("Cannot compare list and " + operand.Type())
 		}
@@ -512,7 +512,7 @@ func (d pyDict) Operator(operator Operator, operand pyObject) pyObject {
 		}
 		panic("unknown dict key: " + s.String())
 	case Union:
-		d2, ok := operand.(pyDict)
+		d2, ok := asDict(operand)
 		if !ok {
 			panic("Operator to | must be another dict, not " + operand.Type())
 		}
